@@ -280,13 +280,19 @@ def torch_runs(run, tier, rng, root, traces, computer=None, seed=5, combos=None,
     lines = []
     for k, (n, cont) in enumerate([(900, "wav"), (1300, "npy"), (60, "npy"), (1100, "pt"), (800, "sph"), (1000, "npy2"),
                                    (100, "npy"), (161, "wav"), (80, "npy"), (5, "npy"),
-                                   (1050, "npy1")]):  # (80 = frame_length / 2 exactly: still no frame; npy1: mono, stored channels-first as (1, S))
+                                   (1050, "npy1"), (1000, "npy0")]):  # (80 = frame_length / 2 exactly: still no frame; npy1: mono, stored channels-first as (1, S))
         # (ids are matched whole: "t00" is not done because "t00x" is)
         # (... and may contain dots: "sp1.0-t04" and "sp1.1-t05" are two utterances, each stored under its own name)
-        uid = {0: "t00x", 3: "t00", 4: "sp1.0-t04", 5: "sp1.1-t05", 8: "t_half_frame", 9: "t_five_samples", 10: "t_mono_1xS"}.get(k, "t%02d" % k)
+        uid = {0: "t00x", 3: "t00", 4: "sp1.0-t04", 5: "sp1.1-t05", 8: "t_half_frame", 9: "t_five_samples", 10: "t_mono_1xS", 11: "t_silence_and_whisper"}.get(k, "t%02d" % k)
         x = nprng.randint(-3000, 3000, size=n).astype(np.int16)
-        p = os.path.join(d, "raw", uid + "." + cont.replace("npy2", "npy").replace("npy1", "npy"))
-        if cont == "wav":
+        p = os.path.join(d, "raw", uid + "." + cont.replace("npy2", "npy").replace("npy1", "npy").replace("npy0", "npy"))
+        if cont == "npy0":
+            # digital silence, then samples of the order of 0.01 (float audio scaled to [-1, 1]): every log coefficient of the first
+            # half sits at the floor, those of the second half just above it
+            x = np.concatenate([np.zeros(500), nprng.randn(500) * 0.01])
+            np.save(p, x.astype(np.float32))
+            x = x.astype(np.float32)
+        elif cont == "wav":
             write_wav(p, x)
         elif cont == "npy":
             np.save(p, x.astype(np.float32))
